@@ -54,7 +54,12 @@ def preload():
 
 def cases(tier, seed):
     n = 960 if tier == "quick" else 16000
-    return [{"seed": seed * 611953 + i * 3 + 1, "kind": KINDS[i % len(KINDS)]} for i in range(n)]
+    out = [{"seed": seed * 611953 + i * 3 + 1, "kind": KINDS[i % len(KINDS)]} for i in range(n)]
+    # engine F: the tabular backend driven directly (start / poll / pause / resume) on tables whose fidelity values are
+    # not 1, 2, 3, ... (BlackboxTabular(fidelity_values=...)), several trials sharing configurations
+    for i in range(300 if tier == "quick" else 6000):
+        out.append({"engine": "F", "seed": seed * 611953 + i * 3 + 2})
+    return out
 
 
 def floors(tier):
@@ -71,6 +76,9 @@ def floors(tier):
         "runs:clock_sum_checked": 400 * k,
         "decided:outside_time_charges_nonzero": 50000 * k,
         "decided:completion_time_polls": 20000 * k,
+        "F:runs": 250 * k,
+        "F:decided:level_sequences": 500 * k,
+        "F:resumed_runs:checkpointing:non_contiguous_fidelities": 100 * k,
         "runs:table_columns_in_other_order_than_config_space": 200 * k,
         "decided:completions_observed_at_or_after_completion_time": 300 * k,
         "runs:max_resource_attr": 100 * k,
@@ -178,7 +186,125 @@ def _check_trial_with_seed(o, p, tid, tr, ci, seed_, obj, et_i, cfg_d, mra, ckpt
     return n_checked, multi, sig
 
 
+def run_engine_f(spec):
+    """Direct driver of UserBlackboxBackend: values, level order and resume points against the table, for arbitrary
+    (sorted, positive integer) fidelity values; trials may share a configuration; pause -> resume up to three times."""
+    import numpy as np
+    import pandas as pd
+
+    from syne_tune.blackbox_repository.blackbox_tabular import BlackboxTabular
+    from syne_tune.blackbox_repository.simulated_tabular_backend import UserBlackboxBackend
+    from syne_tune.config_space import randint
+
+    o = Obs()
+    rng = random.Random(spec["seed"])
+    style = rng.choice(["contiguous", "geometric", "step", "random"])
+    if style == "contiguous":
+        fids = list(range(1, rng.randint(4, 10)))
+    elif style == "geometric":
+        b = rng.choice([2, 3])
+        fids = [b ** k for k in range(rng.randint(3, 5))]
+    elif style == "step":
+        st = rng.choice([2, 3, 5])
+        fids = list(range(st, st * rng.randint(4, 7), st))
+    else:
+        fids = sorted(rng.sample(range(1, 40), rng.randint(3, 7)))
+    o.count("F:runs")
+    o.count(f"F:fidelity_values:{style}")
+    n = 5
+    data = np.stack([np.arange(n), np.arange(n)[::-1]]).T
+    hyper = pd.DataFrame(data=data, columns=["x1", "x2"])
+    cs = {"x1": randint(0, n - 1), "x2": randint(0, n - 1)}
+    rs = np.random.RandomState(spec["seed"] % (2 ** 31))
+    n_seeds = rng.choice([1, 1, 2])
+    evals = rs.rand(n, n_seeds, len(fids), 2)
+    steps = rs.uniform(0.5, 2.0, size=(n, n_seeds, len(fids)))
+    evals[:, :, :, 1] = np.cumsum(steps, axis=2)
+    ckpt = rng.random() < 0.75
+    bb = BlackboxTabular(hyperparameters=hyper, configuration_space=cs, fidelity_space={"epoch": randint(1, int(max(fids)))},
+                         objectives_evaluations=evals, fidelity_values=np.asarray(fids), objectives_names=["loss", "elapsed_time"])
+    be = UserBlackboxBackend(blackbox=bb, elapsed_time_attr="elapsed_time", seed=0, support_checkpointing=ckpt)
+    be.time_keeper.start_of_time()
+    n_trials = rng.randint(1, 4)
+    rows = [rng.randrange(n) for _ in range(n_trials)]  # trials may share a configuration
+    for t in range(n_trials):
+        be.start_trial({"x1": int(data[rows[t]][0]), "x2": int(data[rows[t]][1])})
+    runs = {t: [[]] for t in range(n_trials)}          # delivered levels per run
+    paused_at = {t: [] for t in range(n_trials)}
+    state = {t: "running" for t in range(n_trials)}
+    want_pauses = {t: rng.randint(0, 3) for t in range(n_trials)}
+    last_t = {}
+    for _ in range(600):
+        be.time_keeper.advance(rng.choice([0.25, 0.5, 1.0, 3.0]))
+        active = [t for t in range(n_trials) if state[t] == "running"]
+        if not active:
+            resumable = [t for t in range(n_trials) if state[t] == "paused"]
+            if not resumable:
+                break
+        else:
+            status, results = be.fetch_status_results(trial_ids=active)
+            for t, res in results:
+                if state[t] != "running":
+                    continue  # same batch, after the pause decision
+                lvl = int(res["epoch"])
+                runs[t][-1].append(lvl)
+                o.count("F:decided:values")
+                row, pos = rows[t], fids.index(lvl) if lvl in fids else None
+                if pos is None:
+                    o.violate("values_from_table", "F:reported_level_is_not_a_fidelity_value", {"level": lvl, "fidelity_values": fids})
+                elif res["loss"] != evals[row, 0, pos, 0]:
+                    o.violate("values_from_table", "F:delivered_metric_value_differs_from_table_cell",
+                              {"trial": t, "level": lvl, "got": res["loss"], "table": float(evals[row, 0, pos, 0])})
+                ts = res.get("st_tuner_time")
+                if ts is not None and t in last_t and ts < last_t[t] - 1e-9:
+                    o.violate("time_never_runs_backwards", "F:time_stamps_of_one_trial_decrease", {"trial": t, "from": last_t[t], "to": ts})
+                if ts is not None:
+                    last_t[t] = ts
+                if want_pauses[t] > 0 and lvl < fids[-1] and rng.random() < 0.4:
+                    be.pause_trial(trial_id=t, result=res)
+                    state[t] = "paused"
+                    paused_at[t].append(lvl)
+                    want_pauses[t] -= 1
+            for t, (tr, st_) in status.items():
+                if state[t] == "running" and str(st_).lower().endswith("completed"):
+                    state[t] = "completed"
+        for t in range(n_trials):
+            if state[t] == "paused" and rng.random() < 0.5:
+                be.resume_trial(t)
+                state[t] = "running"
+                runs[t].append([])
+    # ---- oracle: every run delivers consecutive fidelity values from its start point
+    sig = []
+    for t in range(n_trials):
+        for ri, lv in enumerate(runs[t]):
+            if not lv:
+                continue
+            o.count("F:decided:level_sequences")
+            start_pos = 0
+            if ri > 0 and ckpt:
+                start_pos = fids.index(paused_at[t][ri - 1]) + 1
+                o.count("F:resumed_runs:checkpointing" + ("" if style == "contiguous" else ":non_contiguous_fidelities"))
+            elif ri > 0:
+                o.count("F:resumed_runs:no_checkpointing")
+            exp = fids[start_pos: start_pos + len(lv)]
+            if lv != exp:
+                o.violate("levels_consecutive_from_resume_point",
+                          f"F:run_does_not_report_the_fidelity_values_after_its_resume_point:{'resumed' if ri else 'first'}:{'checkpointing' if ckpt else 'no_checkpointing'}",
+                          {"trial": t, "run": ri, "delivered": lv, "expected": exp, "fidelity_values": fids, "paused_at": paused_at[t]})
+                break
+            if state[t] == "completed" and ri == len(runs[t]) - 1 and lv[-1] != fids[-1]:
+                o.violate("levels_consecutive_from_resume_point", "F:completed_run_did_not_reach_the_last_fidelity_value",
+                          {"trial": t, "delivered": lv, "fidelity_values": fids})
+            sig.append((ri, len(lv), style))
+    o.set_sig(("F", style, ckpt, sig), nontrivial=any(len(r_) > 1 for r_ in runs.values()))
+    o.sample = {"engine": "F", "fidelity_values": fids, "checkpointing": ckpt, "trials": n_trials, "runs": {str(t): runs[t] for t in runs},
+                "paused_at": {str(t): paused_at[t] for t in paused_at}}
+    return o.result()
+
+
 def run_case(spec):
+    if spec.get("engine") == "F":
+        return run_engine_f(spec)
     o = Obs()
     p = expand(spec)
     r = simrun.SimRun(p, spec["seed"])
